@@ -19,6 +19,7 @@ def _main():
         from .avm import selftest
         return selftest.main()
     pid = a.id.upper()
+    common.disable_expr_traces()
     mod = importlib.import_module("vf.checks.%s" % pid.lower())
     if pid != "C20":
         sys.setrecursionlimit(common.RECURSION_LIMIT)
